@@ -312,7 +312,7 @@ class Engine:
 
     def _model_inputs(self, model):
         out = {}
-        for name, kind, var in self.inputs:
+        for name, kind, var in [x[:3] for x in self.inputs]:
             v = model.eval(var, model_completion=True)
             if kind == 'bool':
                 out[name] = bool(z3.is_true(v))
@@ -340,12 +340,12 @@ class Engine:
         self.check(False, 'raises %s: %s' % (type(ex).__name__, str(ex)[:200]), sig or 'raises:' + type(ex).__name__)
 
     # ---- inputs
-    def _decl(self, name, kind, var):
-        self.inputs.append((name, kind, var))
+    def _decl(self, name, kind, var, lo=None, hi=None):
+        self.inputs.append((name, kind, var, lo, hi))
 
     def int(self, name, lo=None, hi=None):
         v = z3.Int(name)
-        self._decl(name, 'int', v)
+        self._decl(name, 'int', v, lo, hi)
         cs = []
         if lo is not None:
             cs.append(v >= lo)
@@ -362,7 +362,7 @@ class Engine:
 
     def char(self, name, lo=0, hi=0x10FFFF, exclude_surrogates=True):
         v = z3.Int(name)
-        self._decl(name, 'char', v)
+        self._decl(name, 'char', v, lo, hi)
         c = z3.And(v >= lo, v <= hi)
         if exclude_surrogates and hi >= 0xD800:
             c = z3.And(c, z3.Or(v < 0xD800, v > 0xDFFF))
@@ -436,16 +436,32 @@ class Engine:
             self.aborting = None
 
     def _degrade(self, reason):
-        """path could not be followed symbolically: remember a concrete instance of it"""
+        """path could not be followed symbolically: remember concrete instances of it (a default model plus models with
+        the inputs pushed to the upper / lower ends of their ranges - boundary values are where such paths usually differ)"""
         try:
             self.aborting = None
             self._popto(self.apos)
-            if self.solver.check() == z3.sat:
-                m = self.solver.model()
-                self.degraded.append({'reason': reason[:300], 'inputs': self._model_inputs(m),
-                                      'choices': list(self.choices)})
-            else:
+            if self.solver.check() != z3.sat:
                 self.degraded.append({'reason': reason[:300], 'inputs': None, 'choices': list(self.choices)})
+                return
+            models = [self._model_inputs(self.solver.model())]
+            for pick in ('hi', 'lo'):
+                self.solver.push()
+                try:
+                    for name, kind, var, lo, hi in self.inputs:
+                        bound = hi if pick == 'hi' else lo
+                        if kind not in ('int', 'char') or bound is None:
+                            continue
+                        if self.solver.check(var == bound) == z3.sat:
+                            self.solver.add(var == bound)
+                    if self.solver.check() == z3.sat:
+                        m = self._model_inputs(self.solver.model())
+                        if m not in models:
+                            models.append(m)
+                finally:
+                    self.solver.pop()
+            for m in models:
+                self.degraded.append({'reason': reason[:300], 'inputs': m, 'choices': list(self.choices)})
         except BaseException as ex:      # noqa
             self.degraded.append({'reason': reason[:300] + ' / ' + repr(ex), 'inputs': None, 'choices': list(self.choices)})
 
